@@ -13,7 +13,9 @@ LISTS_Q = [('C', 'K'), ('F', 'C'), ('K', 'F'), ('C', 'K', 'F'), ('X1', 'X2'), ('
            # a lower origin written in a finer unit next to a higher origin written in a coarser one, in both orders, and mixed magnitudes
            ('C', 'X4'), ('X4', 'C'), ('X5', 'X4'), ('X4', 'F'), ('X2', 'X5', 'C'), ('mK', 'X4'),
            # three and four units whose origin offsets need different granularities, the lowest origin in the middle of the library's canonical order
-           ('X6', 'X7', 'X8'), ('X8', 'X6', 'X7'), ('K', 'X6', 'X8', 'X5'), ('X7', 'C', 'X8')]
+           ('X6', 'X7', 'X8'), ('X8', 'X6', 'X7'), ('K', 'X6', 'X8', 'X5'), ('X7', 'C', 'X8'),
+           # an origin BELOW the generic zero origin next to units that have no origin member at all
+           ('K', 'X9'), ('X9', 'K'), ('X9', 'mK', 'C'), ('X2', 'K')]
 LISTS_T = LISTS_Q + [('X2', 'F', 'mK'), ('X1', 'X3'), ('K', 'mK'), ('X2', 'C', 'K'), ('F', 'X1', 'X2'), ('C', 'mK', 'X3')]
 
 
